@@ -93,27 +93,32 @@ Proof. exact disk_filter_cgo_refuted. Qed.
 Print Assumptions C16_disk_filter_cgo_refuted.
 
 (* ---- round 5: the status the operating system delivers ----
-   Full statement: forall cfg fs, os_status (fst (run cfg fs)) = 0 <-> all_lines cfg fs = []  (and = exit_code otherwise). *)
-Theorem C16_exit_status_delivered_partial : forall cfg fs,
-  (0 <= exit_code cfg < 256)%Z ->
-  os_status (fst (run cfg fs)) = if nonempty (all_lines cfg fs) then exit_code cfg else 0%Z.
-Proof. exact exit_status_delivered. Qed.
-Print Assumptions C16_exit_status_delivered_partial.
+   parseArgs accepts an -exitCode value only if a process can deliver it (0..255); for every accepted value the
+   delivered status is that value iff something was printed, and 0 otherwise. *)
+Theorem C16_exit_status_delivered : forall z cfg fs,
+  parse_exit_code z = Some (exit_code cfg) ->
+  os_status (fst (run cfg fs)) = if nonempty (all_lines cfg fs) then z else 0%Z.
+Proof. exact exit_status_accepted. Qed.
+Print Assumptions C16_exit_status_delivered.
 Theorem C16_exit_zero_iff_no_diag_partial : forall cfg fs,
   (1 <= exit_code cfg < 256)%Z -> (os_status (fst (run cfg fs)) = 0%Z <-> all_lines cfg fs = []).
 Proof. exact exit_zero_iff_no_diag. Qed.
 Print Assumptions C16_exit_zero_iff_no_diag_partial.
+(* what os.Exit makes of a multiple of 256, whoever passes it *)
 Theorem C16_exit_multiple_of_256_is_zero : forall cfg fs k,
   exit_code cfg = (256 * k)%Z -> os_status (fst (run cfg fs)) = 0%Z.
 Proof. exact exit_multiple_of_256. Qed.
 Print Assumptions C16_exit_multiple_of_256_is_zero.
-Theorem C16_exit_code_wraps_refuted :
-  exists cfg fs, all_lines cfg fs <> [] /\ exit_code cfg <> 0%Z /\ os_status (fst (run cfg fs)) = 0%Z.
-Proof. exact exit_code_wraps_refuted. Qed.
-Print Assumptions C16_exit_code_wraps_refuted.
+(* before the repair parseArgs took every value: -exitCode=256 made a run with diagnostics exit 0 *)
+Theorem C16_exit_code_wraps_prefix_refuted :
+  exists z cfg fs, parse_exit_code_prefix z = Some (exit_code cfg) /\ all_lines cfg fs <> [] /\ z <> 0%Z
+                   /\ os_status (fst (run cfg fs)) = 0%Z.
+Proof. exact exit_code_wraps_prefix_refuted. Qed.
+Print Assumptions C16_exit_code_wraps_prefix_refuted.
 
 Example C16_example_disk_filter :
   disk_file_checked {| check_tests := false; check_generated := false; exit_code := 1 |}
     {| df_name := "a.go"; df_line_name := None; df_cgo := false; df_groups := [] |} = true
-  /\ base_name "tmpl/zz_test.go" = "zz_test.go".
+  /\ base_name "tmpl/zz_test.go" = "zz_test.go"
+  /\ parse_exit_code 256 = None /\ parse_exit_code 7 = Some 7%Z.
 Proof. vm_compute. auto. Qed.
